@@ -218,7 +218,7 @@ pub fn exec_every_view_function(view: &mut ScmpPayloadView) {
             v.set_interface_id(black_box(v.interface_id()));
         }
         ScmpMessageViewMut::Unknown(v) => {
-            v.set_message_type(black_box(v.message_type()));
+            unsafe { v.set_message_type(black_box(v.message_type())) };
             v.set_code(black_box(v.code()));
             v.set_checksum(black_box(v.checksum()));
             touch_slice_bounds(v.message_specific_data_mut());
